@@ -366,4 +366,19 @@ example :
     hAccept (fun _ _ => false) 3 w r2.2.s.self (obsH r3.1.heap r2.2) (.tok 5) = true ∧
     hAccept (fun _ _ => false) 3 w r2.2.s.self (obsH r3.1.heap r2.2) (.tok 7) = false := by decide
 
+/-- the hypotheses of `c08h_step` / `c08h_hist` are inhabited: the enum base above is a well-formed live composite -/
+theorem invH_base : InvH hBase.1 [hBase.2] := by
+  obtain ⟨he, hb, hws, hs⟩ := hRebuild_spec fixed rfl σ0 dummy 22 [] 0 inv0.closed (inv0.wf dummy (by simp))
+  obtain ⟨_, hb2, hw2, _⟩ := withList_spec σ0 _ _ .enum [4, 5, 6] he hb hws hs
+  refine ⟨hb2, fun x hx => ?_⟩
+  simp only [List.mem_singleton] at hx
+  subst hx
+  exact hw2
+
+example : (HOp.exclude [5] [] 0).ok hBase.1 := trivial
+example : (HOp.common (.derive 1 [] (some 7))).ok hBase.1 := ⟨trivial, rfl⟩
+example : hopsOK fixed hBase.1 [hBase.2] [(0, .exclude [5] [] 0)] := by
+  simp only [hopsOK, List.getElem?_cons_zero]
+  exact ⟨trivial, trivial⟩
+
 end Gozod.C08
